@@ -1,8 +1,11 @@
 #!/bin/bash
-# verify every ingested seed that has no verify.json yet (full baseline suite in a scratch worktree each)
+# verify every ingested seed that has no verify.json yet (full baseline suite in a scratch worktree each; two at a time)
+one() {
+  d=$1
+  /venv/bin/python /verif/tools/verify_seed.py $d > $d/verify.json.tmp 2>/dev/null; mv $d/verify.json.tmp $d/verify.json
+  echo "$(basename $d): $(grep -o '"confirmed": [a-z]*' $d/verify.json)"
+}
+export -f one
 for d in /verif/seeded/C*-*; do
-  if [ ! -f $d/verify.json ]; then
-    /venv/bin/python /verif/tools/verify_seed.py $d > $d/verify.json.tmp 2>/dev/null; mv $d/verify.json.tmp $d/verify.json
-    echo "$(basename $d): $(grep -o '"confirmed": [a-z]*' $d/verify.json)"
-  fi
-done
+  [ -f $d/verify.json ] || echo $d
+done | xargs -P 2 -I{} bash -c 'one {}'
